@@ -9,7 +9,7 @@ ID = "C06"
 LEAN_MODULES = ["QtyModel.Props.C06", "QtyModel.Props.C06General"]
 HARNESS_GROUPS = ()
 # kinds of difference in the macro-level correspondence (tools/macrofront.py) that are failing inputs here
-MACRO_PARTS = ("impls",)
+MACRO_PARTS = ("impls", "items")
 RULE = ("all ordered pairs of the 14 catalogue quantity types and the dimensionless amount x operators + - * / == < "
         "(1350 programs) in both back-ends, and the astronomical crate's types (150 programs, f64): rustc's verdict per "
         "program (accepted with the ascribed result type / rejected at that line) compared with the specification relation "
@@ -26,6 +26,8 @@ def type_path(name, group, tables):
         return "quantities::AmountT"
     if name == "bool":
         return "bool"
+    if name.startswith("prim:"):
+        return name[5:]
     if group == "astro":
         return f"astronomical_quantities::{name}"
     for it in tables["catalogue"]:
@@ -63,6 +65,15 @@ def extra(tier, seed):
                 mism = [r for r in rows if r[3] != r[4]]
                 if mism:
                     broken.append(pl.Broken("thm.C06.typechecks_eq_spec", f"model impl table and specification relation differ: {mism[:5]}"))
+                # a bare number of ANOTHER primitive type combined with a quantity is never meaningful (the
+                # specification knows the amount type only): integer and other float types, both operand orders
+                prims = ["i32", "i64", "u8", "usize", "f32"] + (["f64"] if be == "dec" else [])
+                qnames = sorted({r[1] for r in rows if r[1] not in ("AmountT", "bool")})
+                for q in qnames:
+                    for pr in prims:
+                        for op in ("*", "/", "+", "-"):
+                            rows.append((op, "prim:" + pr, q, "-", "-"))
+                            rows.append((op, q, "prim:" + pr, "-", "-"))
                 src, index = build_program(rows, group, tables)
                 feats = cc.ALL_FEATURES + (["fpdec"] if be == "dec" else [])
                 d = cc.make_crate(root, f"c06_{group}_{be}", src, feats, astro=(group == "astro"))
